@@ -14,7 +14,7 @@ import queue as _q
 import time
 import traceback
 
-from .canon import canon_state
+from .canon import Unknown, canon_state
 from .explorer import Ctl, Stats
 
 TABLE_BITS = 23
@@ -64,8 +64,12 @@ def _execute(World, scen, prefix, visited, stats, max_len=2000):
                 terminal = True
                 break
             if ctl.beyond():
-                h = digest64(canon_state(w.ready(), w.roots()))
-                if not visited.add_if_new(h):
+                try:
+                    h = digest64(canon_state(w.ready(), w.roots()))
+                except Unknown:
+                    h = None  # never merged (see explorer.execute)
+                    stats.unhashable += 1
+                if h is not None and not visited.add_if_new(h):
                     stats.pruned += 1
                     break
             ch = ctl.choose(len(acts), free=w.idle())
